@@ -64,8 +64,18 @@ void GlobalGraph::edgeMustExist_(const GlobalGraph::Edge& edge, string name) con
 }
 
 
+void GlobalGraph::relationMustNotExist_(const GlobalGraph::Node& nodeA, const GlobalGraph::Node& nodeB) const
+{
+  // the node structure holds one edge per (origin, destination): a second one would be listed by neither node
+  nodeStructureType::const_iterator nodeARow = nodeStructure_.find(nodeA);
+  if (nodeARow != nodeStructure_.end() && nodeARow->second.first.find(nodeB) != nodeARow->second.first.end())
+    throw Exception("GlobalGraph::link : nodes " + TextTools::toString(nodeA) + " and " + TextTools::toString(nodeB) + " are already linked.");
+}
+
 GlobalGraph::Edge GlobalGraph::link(Graph::NodeId nodeA, Graph::NodeId nodeB)
 {
+  relationMustNotExist_(nodeA, nodeB);
+
   // which ID is available?
   GlobalGraph::Edge edgeID = highestEdgeID_++;
 
@@ -83,6 +93,7 @@ void GlobalGraph::link(Graph::NodeId nodeA, Graph::NodeId nodeB, GlobalGraph::Ed
 {
   if (edgeStructure_.find(edgeID) != edgeStructure_.end())
     throw Exception("GlobalGraph::link : already existing edgeId " + TextTools::toString(edgeID));
+  relationMustNotExist_(nodeA, nodeB);
 
   // writing the new relation to the structure
   linkInNodeStructure_(nodeA, nodeB, edgeID);
